@@ -11,7 +11,8 @@ from . import pegcommon as P
 
 PID = "C20"
 OPTS = dict(max_rules=3, depth=3, comment=0.1, modifiers=0.1, unord=0.1, preds=0.08, sup=0.08, eol=0.05, sep=0.4,
-            base=["ID", "INT", "STRING"], lits=["ab", "Ab", "and", "IF", "k1", "+", "x", ";"], regroup=0.1, ws_mod=0.0)
+            base=["ID", "INT", "STRING"], lits=["ab", "Ab", "and", "IF", "k1", "+", "x", ";", "a b", "a-b", "@ab", "x:"],
+            regroup=0.1, ws_mod=0.0, ncg=0.5, esc=0.15)
 
 
 def flip_variants(rng, s, k):
@@ -33,13 +34,18 @@ def cases_for(rng, n, per, autokwd=False):
     for _ in range(n):
         g = gg.grammar()
         cfg = D.default_cfg(icase=True, autokwd=autokwd and rng.random() < 0.5)
+        # the same grammar without ignore_case is built (and used) first in the same process
+        twin = dict(cfg, icase=False)
         sg = G.SentenceGen(rng, g)
         has_c = any(r["name"] == "Comment" for r in g["rules"])
         for _k in range(per):
             toks = sg.sentence()
             s = G.join(rng, toks, has_c, glue=0.05)
             ids = []
-            for v in [s] + flip_variants(rng, s, 3):
+            vs = [s] + flip_variants(rng, s, 3)
+            for v in vs[:2]:
+                cases.append(dict(id=len(cases), g=g, cfg=twin, s=G.codes(v)))    # case-sensitive twin
+            for v in vs:
                 cases.append(dict(id=len(cases), g=g, cfg=cfg, s=G.codes(v)))
                 ids.append(cases[-1]["id"])
             groups.append(ids)
